@@ -16,7 +16,7 @@ UNDECIDED = re.compile(r"(rlimit|resource limit|timed out|timeout|out of memory|
 SUMMARY = re.compile(r"aborting due to|previous error")
 
 
-def run_verus(path, rlimit=None, seed=None, threads=None, verify_function=None, timeout=900, extra=None):
+def run_verus(path, rlimit=None, seed=None, threads=None, verify_function=None, timeout=900, extra=None, twin=False):
     cmd = ["verus", path, "--output-json", "--time-expanded", "--error-format=json", "--multiple-errors", "20",
            "--triggers-mode", "silent"]
     if rlimit:
@@ -99,7 +99,7 @@ def run_verus(path, rlimit=None, seed=None, threads=None, verify_function=None, 
         res["status"] = "undecided"
         res["reason"] = "verus front-end error: " + "; ".join(
             d["message"][:200] for d in res["diags"] if d["_class"] == "frontend")[:1500]
-    elif any(d["_class"] == "undecided" for d in res["diags"]) and res["status"] == "ok":
+    elif any(d["_class"] == "undecided" for d in res["diags"]) and res["status"] == "ok" and not twin:
         res["status"] = "undecided"
         res["reason"] = "solver resource limit: " + "; ".join(
             d["message"][:120] for d in res["diags"] if d["_class"] == "undecided")[:800]
